@@ -92,7 +92,7 @@ def run(facts, tier):
     r06_3(facts, res)
     c03.r03_3(facts, res, "R06-4", reach, reasons_e1.scc_reasons(facts, reach))
     import guards
-    guards.rule(facts, res, "R06-4g", [facts.fns[x] for x in reach if x in facts.fns], want=("G1", "G2"), floor=1)
+    guards.rule(facts, res, "R06-4g", [facts.fns[x] for x in reach if x in facts.fns], want=("G1", "G2", "G4"), floor=1)
     r06_5(facts, res, reach)
     import borrowck
     borrowck.rule(facts, res, "R06-6", reach, floor=3)
